@@ -1,6 +1,6 @@
 ---------------------------- MODULE Judge_Alerts ----------------------------
 (* Judges traces recorded from the REAL alertsHandler package (one JSON line per
-   replayed behaviour: id, n, cool, steps = <<[a, eff, state, sent], ...>>) with
+   replayed behaviour: id, n, cool, steps = <<[a, eff, d, state, hstate, neval, sent, att], ...>>) with
    the operators of AlertsLaw - the law is written once, in TLA+.  For every trace
    the first evaluation whose observed state differs from LawState, or whose
    observed notification is not admissible, is reported; the verdicts are written
@@ -14,14 +14,20 @@ StepFn(n, cool, acc, ev) ==
     IF acc.bad # <<>> THEN acc
     ELSE LET i == acc.i + 1 IN
       CASE ev.a = "eval" ->
-             LET r == LawEval(acc.g, ev.eff, ev.sent, n, cool)
+             LET fail == ev.d = "fail"
+                 r == LawEval(acc.g, ev.eff, ev.sent, n, cool, fail)
                  stateOK == ev.state = r.law
                  notifOK == ev.sent \in r.adm
+                 \* an owed notification whose delivery fails must at least have been attempted
+                 triedOK == (fail /\ r.owed) => ev.att > 0
+                 \* every evaluation is recorded, whatever the delivery did: counter and newest history row
+                 bookOK == ev.neval = Len(r.g.cs) /\ ev.hstate = r.law
                  rep(kind) == <<[step |-> i, kind |-> kind, law |-> r.law, adm |-> r.adm, state |-> ev.state,
                                  sent |-> ev.sent, conds |-> r.g.cs, now |-> acc.g.now, lastSent |-> acc.g.lastSent,
                                  lastKind |-> acc.g.lastKind, silenced |-> acc.g.silenced]>>
              IN [g |-> r.g, i |-> i,
-                 bad |-> IF ~stateOK THEN rep("state") ELSE IF ~notifOK THEN rep("notif") ELSE <<>>]
+                 bad |-> IF ~stateOK THEN rep("state") ELSE IF ~bookOK THEN rep("history")
+                         ELSE IF ~notifOK THEN rep("notif") ELSE IF ~triedOK THEN rep("untried") ELSE <<>>]
         [] ev.a = "tick" -> [acc EXCEPT !.g = LawTick(acc.g), !.i = i]
         [] ev.a = "silence" -> [acc EXCEPT !.g = LawSilence(acc.g, TRUE), !.i = i]
         [] ev.a = "unsilence" -> [acc EXCEPT !.g = LawSilence(acc.g, FALSE), !.i = i]
